@@ -44,6 +44,10 @@ CHECKS = {
    technique='symbolic execution of the generated COO/CSR extraction functions on z3 terms; SMT well-formedness of the index data and per-element SMT equivalence of the scattered values with an independent dense denotation',
    text='For every program of the family (0-d to 4-d, empty axes, loop sums with element-dependent blocks) the COO data of e.simplified.assparse and the CSR data of as_csr(e) have in-range, unique, lexicographically increasing indices (monotone row pointers, strictly increasing columns per row) for ALL integer argument values, and scattering the listed values into zeros equals the dense value for ALL argument values.',
    note='function.as_coo/as_csr on meshes are covered only through the samples of C09; scipy/mkl consumers are outside.  Index computations that sort symbolic integer data fork per comparison within 64 paths; beyond that the program is counted as not exhaustive.'),
+ 'C07': dict(level='translation_validation', design='4/C07',
+   technique='symbolic execution of lowered-and-compiled function arrays with per-point z3-symbolic operands vs the same NumPy function dispatched onto a symbolic NumPy model, per-element SMT equivalence; operation table read from function.HANDLED_FUNCTIONS',
+   text='Every entry of the real dispatch table (78 entries; sinc, eig, eigh declined) plus indexing and operators is exercised with several call signatures (broadcasting, type promotion, axes, negative indices, slices with steps, ellipsis, newaxis, index arrays, depth-2 compositions) at points_shape (), (2,) [(2,2) thorough]: the value at every point equals NumPy applied to the operand values at that point for ALL operand values, with the shape and kind real NumPy produces; shape-incompatible operand combinations are rejected when built.',
+   note='The oracle is the SArray model of NumPy (conformance-tested against real NumPy on concrete data).  Complex transcendental functions, sinc, eig/eigh are not modelled.  Point axes are generic axes of the lowering protocol; topologies/samples are the subject of C08/C09/C11.  A dispatch-table entry without call signatures makes the check exit with a harness error.'),
 }
 
 NOT_APPLICABLE = {
